@@ -386,3 +386,139 @@ pub fn response_size_limit() -> Value {
 	}
 	json!({"probe":"response_size_limit","disagrees":false,"inputs_tried":tried,"bound":"limits {60,100,150} x every payload size 0..limit+8 (result and error-with-data); batches of 1..4 entries with finished length limit-3..limit+3"})
 }
+
+// ------------------------------------------------------------------------------------------
+use jsonrpsee_core::params::{ArrayParams, ObjectParams};
+use jsonrpsee_core::traits::ToRpcParams;
+
+struct FailAfter(usize);
+impl serde::Serialize for FailAfter {
+	fn serialize<S: serde::Serializer>(&self, s: S) -> Result<S::Ok, S::Error> {
+		use serde::ser::SerializeSeq;
+		let mut seq = s.serialize_seq(None)?;
+		for k in 0..self.0 {
+			seq.serialize_element(&k)?;
+		}
+		Err(serde::ser::Error::custom("fails midway"))
+	}
+}
+
+/// C20: sequences of good / failing inserts, then build: never a panic, always valid JSON that parses back to the good values in order.
+pub fn params_builder_failed_insert() -> Value {
+	let mut tried = 0u64;
+	// ops: 0 = good value, 1 = fails before writing, 2 = fails after writing "[0,1"
+	for len in 1..=4u32 {
+		for code in 0..3u32.pow(len) {
+			let mut ops = Vec::new();
+			let mut c = code;
+			for _ in 0..len {
+				ops.push(c % 3);
+				c /= 3;
+			}
+			for named in [false, true] {
+				tried += 1;
+				let ops2 = ops.clone();
+				let res = std::panic::catch_unwind(move || {
+					let mut good: Vec<u64> = Vec::new();
+					let out = if named {
+						let mut b = ObjectParams::new();
+						for (i, op) in ops2.iter().enumerate() {
+							let key = format!("k{i}");
+							let r = match op {
+								0 => b.insert(&key, i as u64),
+								1 => b.insert(&key, FailAfter(0)),
+								_ => b.insert(&key, FailAfter(2)),
+							};
+							if r.is_ok() {
+								good.push(i as u64);
+							}
+						}
+						b.to_rpc_params()
+					} else {
+						let mut b = ArrayParams::new();
+						for (i, op) in ops2.iter().enumerate() {
+							let r = match op {
+								0 => b.insert(i as u64),
+								1 => b.insert(FailAfter(0)),
+								_ => b.insert(FailAfter(2)),
+							};
+							if r.is_ok() {
+								good.push(i as u64);
+							}
+						}
+						b.to_rpc_params()
+					};
+					(good, out.map(|o| o.map(|r| r.get().to_string())).map_err(|e| e.to_string()))
+				});
+				let desc = format!("{} builder, inserts {:?} (0 = ok, 1 = Serialize fails at once, 2 = Serialize fails after writing part of the value), then build", if named {"named"} else {"positional"}, ops);
+				match res {
+					Err(_) => return json!({"probe":"params_builder_failed_insert","disagrees":true,"input":desc,"observed":"to_rpc_params() panicked","expected":"valid JSON for the values inserted successfully"}),
+					Ok((good, Ok(Some(txt)))) => {
+						let parsed: Result<Value, _> = serde_json::from_str(&txt);
+						let want: Value = if named { Value::Object(good.iter().map(|i| (format!("k{i}"), json!(i))).collect()) } else { json!(good) };
+						if parsed.as_ref().ok() != Some(&want) {
+							return json!({"probe":"params_builder_failed_insert","disagrees":true,"input":desc,"observed":txt,"expected":want.to_string()});
+						}
+					}
+					Ok((good, other)) => {
+						return json!({"probe":"params_builder_failed_insert","disagrees":true,"input":desc,"observed":format!("{:?}", other),"expected":format!("Some(json of {:?})", good)});
+					}
+				}
+			}
+		}
+	}
+	json!({"probe":"params_builder_failed_insert","disagrees":false,"inputs_tried":tried,"bound":"all sequences of 1..4 inserts over {ok, fails-at-once, fails-midway}, positional and named"})
+}
+
+/// C20: builders emit JSON that parses back to what was inserted (keys and string values over a set of awkward texts).
+pub fn params_builder_roundtrip() -> Value {
+	let texts: Vec<String> = vec![
+		"plain".into(), "".into(), "with\"quote".into(), "back\\slash".into(), "tab\there".into(), "nl\nhere".into(),
+		"\u{1}ctl".into(), "\u{1f}".into(), "uni-\u{e9}\u{4e2d}".into(), "\u{7f}del".into(), "a/b".into(), "{[,:]}".into(),
+	];
+	let mut tried = 0u64;
+	for a in &texts {
+		for b in &texts {
+			tried += 1;
+			let (a2, b2) = (a.clone(), b.clone());
+			let res = std::panic::catch_unwind(move || {
+				let mut arr = ArrayParams::new();
+				arr.insert(a2.clone()).unwrap();
+				arr.insert(7u64).unwrap();
+				arr.insert(b2.clone()).unwrap();
+				let arr_txt = arr.to_rpc_params().unwrap().unwrap().get().to_string();
+				let mut obj = ObjectParams::new();
+				obj.insert(&a2, b2.clone()).unwrap();
+				if a2 != b2 {
+					obj.insert(&b2, 7u64).unwrap();
+				}
+				let obj_txt = obj.to_rpc_params().unwrap().unwrap().get().to_string();
+				(arr_txt, obj_txt)
+			});
+			let desc = format!("texts a={:?} b={:?}: ArrayParams [a, 7, b]; ObjectParams {{a: b, b: 7}}", a, b);
+			match res {
+				Err(_) => return json!({"probe":"params_builder_roundtrip","disagrees":true,"input":desc,"observed":"panic while building","expected":"valid JSON"}),
+				Ok((arr_txt, obj_txt)) => {
+					let want_arr = json!([a, 7, b]);
+					let mut m = serde_json::Map::new();
+					m.insert(a.clone(), json!(b));
+					if a != b {
+						m.insert(b.clone(), json!(7));
+					}
+					let want_obj = Value::Object(m);
+					if serde_json::from_str::<Value>(&arr_txt).ok() != Some(want_arr.clone()) {
+						return json!({"probe":"params_builder_roundtrip","disagrees":true,"input":desc,"observed":arr_txt,"expected":want_arr.to_string()});
+					}
+					if serde_json::from_str::<Value>(&obj_txt).ok() != Some(want_obj.clone()) {
+						return json!({"probe":"params_builder_roundtrip","disagrees":true,"input":desc,"observed":obj_txt,"expected":want_obj.to_string()});
+					}
+				}
+			}
+		}
+	}
+	// empty builders mean "no params"
+	if ArrayParams::new().to_rpc_params().ok().flatten().is_some() || ObjectParams::new().to_rpc_params().ok().flatten().is_some() {
+		return json!({"probe":"params_builder_roundtrip","disagrees":true,"input":"empty builder","observed":"Some(..)","expected":"None"});
+	}
+	json!({"probe":"params_builder_roundtrip","disagrees":false,"inputs_tried":tried,"bound":"12 x 12 awkward texts as values and keys"})
+}
